@@ -14,24 +14,63 @@ open TdModel
 /-! ### what the model reads from the source on every run -/
 
 /-- The specification's literals: 300 s / 30 s window, 100 remembered ids, ≤ 1024 bytes of padding,
-server types = id mod 4 ∈ {1, 3}. -/
+server types = id mod 4 ∈ {1, 3}, both bounds inclusive (rejected only when strictly beyond). -/
 theorem constants_are_spec :
-    Facts.C07.maxPast = 300 * 1000000000 ∧ Facts.C07.maxFuture = 30 * 1000000000 ∧
+    Facts.C07.pastLimitNs = 300 * 1000000000 ∧ Facts.C07.futureLimitNs = 30 * 1000000000 ∧
+    Facts.C07.pastStrict = true ∧ Facts.C07.futureStrict = true ∧
     Facts.C07.bufSize = 100 ∧ Facts.C07.maxPadding = 1024 ∧ Facts.C07.messageIDModulo = 4 ∧
-    Facts.C07.yieldServerResponse = 1 ∧ Facts.C07.yieldFromServer = 3 := by decide
+    Facts.C07.acceptedYields = [1, 3] := by decide
 
-/-- The modelled code is the code in the source: `Consume` starts its minimum search from the
-first slot; `decryptMessage` checks decrypt → session → id → replay buffer in this order (so a
-foreign or stale frame never touches the buffer); `consumeMessage` returns on a rejected message
-before `handleMessage`. -/
-theorem code_is_modelled :
-    Facts.C07.consumeBody =
-      "b.mux.Lock() ; defer b.mux.Unlock() ; minIDx, minID := 0, b.buf[0] ; for i, id := range b.buf { if id == newID { return false } if id < minID { minIDx = i minID = id } } ; if newID < minID { return false } ; b.buf[minIDx] = newID ; return true" ∧
-    Facts.C07.decryptMessageSteps =
-      "session := c.session() | msg, err := c.cipher.DecryptFromBuffer(session.Key, b) | if err != nil | if msg.SessionID != session.ID | if err := checkMessageID(c.clock.Now(), msg.MessageID); err != nil | if !c.messageIDBuf.Consume(msg.MessageID) | return msg, nil" ∧
-    Facts.C07.consumeMessageHead =
-      "msg, err := c.decryptMessage(buf) | if errors.Is(err, errRejected) { … return nil } | if err != nil { … return errors.Wrap(err, \"consume message\") } | if err := c.handleMessage(msg.MessageID, &bin.Buffer{Buf: msg.Data()}); err != nil { … c.log.Warn(ctx, \"Error while handling message\", log.Error(err)) }" :=
-  ⟨rfl, rfl, rfl⟩
+/-- The structure of `MessageIDBuf.Consume` read from the source (where the minimum search
+starts, the tests of the scan loop and their order, ifs vs. switch cases, the final test) is one of
+the sound ones, the accepted id is written into the minimum slot, and every use of the buffer lies
+inside the `b.mux` critical section.  The model *interprets* this structure (`consumeW shape`), so
+rewrites within the sound class (reordered independent ifs, `<=` instead of `<`, tuple assignment,
+renamed variables) change nothing, and anything else changes the model. -/
+theorem consume_structure_is_sound :
+    good shape = true ∧ Facts.C07.consumeWritesMinSlot = true ∧ Facts.C07.consumeLocked = true := by decide
+
+/-- `Conn.decryptMessage` runs decrypt first and the replay buffer — the only check that changes
+state — last, every failing check rejects; `consumeMessage` returns on a rejected message before
+`handleMessage` and treats any other decryption error as fatal. -/
+theorem decrypt_structure_is_sound :
+    (Facts.C07.decryptOrder = [0, 1, 2, 3] ∨ Facts.C07.decryptOrder = [0, 2, 1, 3]) ∧
+    Facts.C07.decryptChecksReject = true ∧ Facts.C07.rejectedReturnsBeforeHandle = true ∧
+    Facts.C07.otherErrorsAreFatal = true := by decide
+
+/-- For both sound orders the interpreted `decryptMessage` is the canonical one the theorems
+below are about (the session and id checks are pure, so they commute). -/
+theorem decrypt_order_irrelevant (o : List Nat) (ho : o = [0, 1, 2, 3] ∨ o = [0, 2, 1, 3])
+    (c : Conn) (now : Int) (keyOk : Bool) (m : Msg) :
+    decryptMessageW o c now keyOk m = decryptMessage c now keyOk m := by
+  rcases ho with rfl | rfl
+  · unfold decryptMessageW decryptMessage
+    cases cipherDecrypt keyOk m with
+    | none => rfl
+    | some msg =>
+      by_cases h1 : msg.session = c.session <;> by_cases h2 : checkMessageID now msg.msgId = true <;>
+        by_cases h3 : (consume c.buf msg.msgId).2 = true <;> simp [checksFrom, h1, h2, h3]
+  · unfold decryptMessageW decryptMessage
+    cases cipherDecrypt keyOk m with
+    | none => rfl
+    | some msg =>
+      by_cases h1 : msg.session = c.session <;> by_cases h2 : checkMessageID now msg.msgId = true <;>
+        by_cases h3 : (consume c.buf msg.msgId).2 = true <;> simp [checksFrom, h1, h2, h3]
+
+/-- The executable model (`runConnW`, what the driver runs, with the order read from the source)
+is the canonical `runConn`. -/
+theorem runConnW_eq_runConn (fs : List (Int × Bool × Msg)) : ∀ c, runConnW c fs = runConn c fs := by
+  have ho := decrypt_structure_is_sound.1
+  have hcm : ∀ c now k m, consumeMessageW c now k m = consumeMessage c now k m := by
+    intro c now k m
+    unfold consumeMessageW consumeMessage
+    rw [decrypt_order_irrelevant _ ho]
+  induction fs with
+  | nil => intro c; rfl
+  | cons f rest ih =>
+    intro c
+    obtain ⟨now, k, m⟩ := f
+    simp only [runConnW, runConn, hcm, ih]
 
 /-! ### the replay buffer -/
 
@@ -74,6 +113,29 @@ theorem consume_state (b : List Int) (hb : b ≠ []) (id : Int) :
   · rw [e] at h; cases h
   · exact ⟨k, m, hk, hmin, by rw [e]⟩
 
+/-- The same characterisation holds for *every* sound structure of the loop, not only the one
+currently in the source. -/
+theorem consume_spec_every_sound_structure (sh : Shape) (hg : good sh = true) (b : List Int) (hb : b ≠ [])
+    (id : Int) : (consumeW sh b id).2 = true ↔ id ∉ b ∧ ¬ (∀ y ∈ b, id < y) := by
+  rcases consumeW_cases sh hg b hb id with ⟨hm, e⟩ | ⟨hm, k, m, hk, hmin, ⟨hlt, e⟩ | ⟨hlt, e⟩⟩
+  · rw [e]; simp [hm]
+  · rw [e]
+    constructor
+    · intro h; cases h
+    · intro ⟨_, h⟩
+      exact absurd (fun y hy => Int.lt_of_lt_of_le hlt (hmin y hy)) h
+  · rw [e]
+    constructor
+    · intro _
+      exact ⟨hm, fun h => hlt (h m (List.mem_iff_getElem?.mpr ⟨k, hk⟩))⟩
+    · intro _; rfl
+
+/-- An unsound structure — the switch of seeded change C07-2, minimum case first — accepts a
+replay: 5, 3, then 3 again. -/
+theorem consume_exclusive_min_first_counterexample :
+    (runBufWith (consumeW { initFirst := true, exclusive := true, items := [.min true, .dup], tailStrict := true })
+      (newBuf 3) [5, 3, 3]).2 = [true, true, true] := by decide
+
 /-- After **any** history of (positive) ids the buffer of size N holds the N largest accepted
 ids: every non-empty slot is an accepted id, slots are pairwise distinct, and an accepted id that
 is no longer stored is lower than everything stored (hence the buffer is full of larger ones). -/
@@ -105,8 +167,13 @@ theorem checkMessageID_spec (now id : Int) :
     checkMessageID now id = true ↔
       (id.tmod 4 = 1 ∨ id.tmod 4 = 3) ∧
       now - idTime id ≤ 300 * 1000000000 ∧ idTime id - now ≤ 30 * 1000000000 := by
-  unfold checkMessageID serverTyped
-  rw [modulo_eq, yieldServerResponse_eq, yieldFromServer_eq, maxPast_eq, maxFuture_eq]
+  unfold checkMessageID serverTyped exceeds
+  rw [modulo_eq, maxPast_eq, maxFuture_eq]
+  have hy : Facts.C07.acceptedYields = [1, 3] := rfl
+  have hg : Facts.C07.pastGuarded = true := rfl
+  have hp : Facts.C07.pastStrict = true := rfl
+  have hf : Facts.C07.futureStrict = true := rfl
+  rw [hy, hg, hp, hf]
   by_cases a : id.tmod 4 = 1 <;> by_cases b : id.tmod 4 = 3 <;> by_cases p : idTime id < now <;>
     by_cases q : now - idTime id > 300000000000 <;> by_cases r : idTime id - now > 30000000000 <;>
     simp [a, b, p, q, r] <;> omega
@@ -180,6 +247,63 @@ theorem handled_only_if_accepted (c : Conn) (now : Int) (keyOk : Bool) (m : Msg)
     cases r with
     | none => rw [hd] at h; simp at h
     | some m' => exact ⟨m', rfl⟩
+
+/-! ### the read loop: frames handled concurrently, rejected frames, fatal frames -/
+
+/-- While the buffer is not full (some slot was never written) every fresh positive id is accepted —
+whatever was accepted before and in whatever order.  Hence, as long as fewer than N ids have been
+accepted, the set of handled ids does not depend on the order in which concurrent frame handlers
+reach the buffer: each valid id gets through exactly once (`consume_spec` rejects its copies). -/
+theorem fresh_id_accepted_while_not_full (b : List Int) (h0 : (0 : Int) ∈ b) (id : Int) (hid : 0 < id)
+    (hfresh : id ∉ b) : (consume b id).2 = true := by
+  have hb : b ≠ [] := by intro e; rw [e] at h0; simp at h0
+  rw [consume_accepts_iff b hb id]
+  exact ⟨hfresh, fun h => by have := h 0 h0; omega⟩
+
+/-- … and once accepted, a second copy of the id is rejected as long as it is still stored. -/
+theorem stored_id_rejected (b : List Int) (id : Int) (h : id ∈ b) : (consume b id).2 = false := by
+  have hb : b ≠ [] := by intro e; rw [e] at h; simp at h
+  cases hc : (consume b id).2 with
+  | false => rfl
+  | true => exact absurd h ((consume_accepts_iff b hb id).mp hc).1
+
+/-- A frame that decrypts never stops the read loop: wrong session, stale / future / client-typed
+id and replays are only dropped. -/
+theorem rejected_frame_is_not_fatal (c : Conn) (now : Int) (keyOk : Bool) (m : Msg)
+    (h : cipherDecrypt keyOk m ≠ none) : (consumeOutcome c now keyOk m).2 ≠ .fatal := by
+  unfold consumeOutcome
+  cases hd : cipherDecrypt keyOk m with
+  | none => exact absurd hd h
+  | some msg =>
+    simp only
+    cases hm : decryptMessage c now keyOk m with
+    | mk c' r => cases r <;> simp
+
+/-- A frame that does not decrypt (foreign key, bad msg_key, bad padding or length) is fatal and
+reaches no handler. -/
+theorem undecryptable_frame_is_fatal (c : Conn) (now : Int) (keyOk : Bool) (m : Msg)
+    (h : cipherDecrypt keyOk m = none) : consumeOutcome c now keyOk m = (c, .fatal) := by
+  unfold consumeOutcome; rw [h]
+
+/-- The read loop halts iff some frame is undecryptable. -/
+theorem readLoop_halts_iff (fs : List (Int × Bool × Msg)) : ∀ c,
+    (readLoop c fs).2 = true ↔ ∃ f ∈ fs, cipherDecrypt f.2.1 f.2.2 = none := by
+  induction fs with
+  | nil => intro c; simp [readLoop]
+  | cons f rest ih =>
+    intro c
+    obtain ⟨now, k, m⟩ := f
+    simp only [readLoop, Bool.or_eq_true, decide_eq_true_eq, ih, List.mem_cons, exists_eq_or_imp]
+    constructor
+    · rintro (h | h)
+      · left
+        cases hd : cipherDecrypt k m with
+        | none => rfl
+        | some msg => exact absurd h (rejected_frame_is_not_fatal c now k m (by rw [hd]; simp))
+      · exact Or.inr h
+    · rintro (h | h)
+      · left; rw [undecryptable_frame_is_fatal c now k m h]
+      · exact Or.inr h
 
 /-! ### non-vacuity -/
 
